@@ -264,7 +264,7 @@ def task(prop, seed, size, cfgbins, impl=None):
 def run(prop, tier, seed, t0):
     from .. import plan
     from . import c01v
-    cfgs = ['simd', 'serial32', 'fiat64', 'fiat32'] if tier == 'quick' else plan.ALL_CFGS
+    cfgs = ['simd', 'serial32', 'fiat64', 'fiat32', 'avx512'] if tier == 'quick' else plan.ALL_CFGS
     bins, notes, failed = plan.bins_for(cfgs, ('rel', 'chk') if tier == 'thorough' else ('rel',))
     if failed:
         return plan.fail_build(prop, failed)
@@ -284,6 +284,6 @@ def run(prop, tier, seed, t0):
                             '(bytes / nominal limbs / limbs at the tight post-condition bound / limbs at the documented '
                             'pre-condition headroom), judged on the value denoted by the input limbs with Python ints mod p; '
                             'distinct = distinct (op,args)',
-                       required_classes=REQUIRED + c01v.REQUIRED,
+                       required_classes=REQUIRED + c01v.REQUIRED + (c01v.REQUIRED_IFMA if any(l.startswith('avx512') for l, _ in bins) else []),
                        assumptions=['oracle = Python int arithmetic mod p', 'admissible headroom per backend: u64 limbs < 2^54, '
                                     'u32 b < 1.75, fiat tight bounds'] + notes)
